@@ -120,6 +120,19 @@ def run(run: core.Run) -> int:
         text = d["text"]
         if not r.get("fallback"):
             cnt["structured"] += 1
+            # "whenever it cannot produce structured ExplorerScript, the text is SsbScript starting with the marker":
+            # an unmarked text that is not ExplorerScript at all (the parser / compiler rejects it) is neither.
+            # (Whether a compilable structured text denotes the input is C02's business.)
+            y = r.get("recompiled") or {}
+            # (random routine sets carry arbitrary parameter values in positions where the special syntax of an op admits
+            # only some literal kinds — that is the literal layer, C04/C07; this clause is evaluated on sets whose
+            # parameters are known to be printable: compiler output made reader-shaped, and the corpus)
+            if s["origin"]["kind"] != "random" and "error" in y and y["error"] in ("ParseError", "SsbCompilerError"):
+                n_viol += 1
+                cnt["structured_not_compilable"] += 1
+                sh = (c02.shapes(x) or ["plain"])[0]
+                run.violation(f"structured_not_compilable:{sh}:{y['error']}", f"unmarked (structured) text is rejected by the ExplorerScript compiler: {y['error']}: {y['msg'][:150]}",
+                              {"rs": x, "text": text})
             continue
         cnt["fallback"] += 1
         if text.split("\n", 1)[0] != MARKER_LINE:
